@@ -347,7 +347,9 @@ func (vm *VM) step(s ast.Stmt, st vmState, exits *[]vmExit) []vmState {
 			vm.count(r, &st)
 		}
 		for i, l := range s.Lhs {
-			vm.count(l, &st)
+			if _, plain := unparen(l).(*ast.Ident); !plain {
+				vm.count(l, &st)
+			}
 			switch {
 			case vm.isVar(l, "err"):
 				if len(s.Rhs) == len(s.Lhs) {
